@@ -24,9 +24,6 @@ def canonNotifs (l : List Notif) : List String :=
 def check (j : Json) : Except String (Option String) := do
   let pre : State ← getField j "pre" >>= fromJson?
   let post : State ← getField j "post" >>= fromJson?
-  let op : Op ← getField j "op" >>= fromJson?
-  let now : Int ← getField j "now" >>= fromJson?
-  let ok : Bool ← getField j "ok" >>= fromJson?
   let inboxes : List (String × List Notif) ← getField j "inboxes" >>= fromJson?
   let all : List Notif ← getField j "all" >>= fromJson?
   if !keysNodup pre.store then throw "pre-state has duplicate keys"
@@ -34,6 +31,12 @@ def check (j : Json) : Except String (Option String) := do
   let listing := allSome (
     (inboxes.map (fun (a, l) => cmpField s!"inbox" (canonNotifs (inbox post a)) (canonNotifs l))) ++
     [cmpField "allNotifications" (canonNotifs (allNotifications post)) (canonNotifs all)])
+  -- a restart of the network from its own exported genesis changes nothing the module holds
+  if let .ok (.str "restart") := getField j "op" then
+    return allSome [cmpField "store" (canonStore pre.store) (canonStore post.store), listing]
+  let op : Op ← getField j "op" >>= fromJson?
+  let now : Int ← getField j "now" >>= fromJson?
+  let ok : Bool ← getField j "ok" >>= fromJson?
   match step pre now op with
   | none =>
     if ok then return some "field=outcome model=failed impl=ok"
